@@ -124,3 +124,87 @@ def kwargs_of(t: Term) -> dict[str, Term]:
 
 def short(s: str, n: int = 300) -> str:
     return s if len(s) <= n else s[: n - 1] + "…"
+
+
+# ---------------------------------------------------------------------------------------------------------------------------------
+# networkx graph builders: any sequence of add_node / add_nodes_from / add_edge / add_edges_from (inside loops, over generators,
+# chains, literal lists, `for w in (u, v)`) on a fresh nx.Graph / nx.DiGraph is normalised to two lists of PARTS
+#     nodes: [(element term, generators)]      edges: [((source term, target term), generators)]
+# where a part with no generators and a collection term as element stands for "all elements of that collection".
+def _expand_literal_gens(payload: Term, gens: tuple) -> list:
+    """`for w in (u, v)` over a literal tuple is two parts (w := u, w := v)."""
+    for k, (pat, it, conds) in enumerate(gens):
+        src = it
+        while src[0] in ("setof",) or (src[0] == "call" and src[1] in ("tuple", "list", "iter") and len(src[2]) == 1):
+            src = src[1] if src[0] == "setof" else src[2][0]
+        if pat[0] == "var" and src[0] in ("tuplelit", "listlit") and not conds and len(src[1]) <= 4:
+            out = []
+            rest = gens[:k] + gens[k + 1:]
+            for x in src[1]:
+                m = {pat: x}
+                out.extend(_expand_literal_gens(mapterm(payload, lambda s, m=m: m.get(s)), tuple((p, mapterm(i, lambda s, m=m: m.get(s)), tuple(mapterm(c, lambda s, m=m: m.get(s)) for c in cs)) for p, i, cs in rest)))
+            return out
+    return [(payload, gens)]
+
+
+def _collection_parts(c: Term, gens: tuple, sa: SetAlg) -> list:
+    """Parts (element, generators) of a collection argument of add_*_from."""
+    c0 = c
+    c = sa.strip(c)
+    h = c[0]
+    if h in ("listlit", "tuplelit", "setlit"):
+        out = []
+        for x in c[1]:
+            out.extend(_expand_literal_gens(x, gens))
+        return out
+    if h == "comp" and c[1] in ("list", "set", "gen"):
+        return _expand_literal_gens(c[2], gens + tuple(c[3]))
+    if h in ("union", "concat"):
+        out = []
+        for x in c[1:]:
+            out.extend(_collection_parts(x, gens, sa))
+        return out
+    if h == "op" and c[1] in ("+", "|"):
+        return _collection_parts(c[2], gens, sa) + _collection_parts(c[3], gens, sa)
+    if h == "call" and isinstance(c[1], str) and c[1].split(".")[-1] in ("chain",):
+        out = []
+        for x in c[2]:
+            out.extend(_collection_parts(x, gens, sa))
+        return out
+    if h == "accum" and c[1] in ("concat", "union"):
+        out = _collection_parts(c[2], gens, sa)
+        out.extend(_collection_parts(c[3], gens + tuple(c[4]), sa))
+        return out
+    return [(("ALL", c), gens)]
+
+
+def nx_builder_parts(t: Term, sa: SetAlg):
+    """(base, node parts, edge parts) of a networkx graph term built by effects on a fresh graph; None if it is not one."""
+    effs = []
+    while t[0] in ("accum", "mut"):
+        if t[0] == "accum":
+            if t[1] != "effect":
+                return None
+            effs.append((t[3], tuple(t[4])))
+            t = t[2]
+        else:
+            for e in reversed(t[2]):
+                effs.append((e, ()))
+            t = t[1]
+    if not (t[0] == "call" and isinstance(t[1], str) and t[1].split(".")[-1] in ("DiGraph", "Graph") and not t[2]):
+        return None
+    nodes, edges = [], []
+    for e, gens in reversed(effs):
+        if e[0] != "call":
+            continue
+        name, args, kw = e[1], e[2], dict(e[3])
+        if name == "add_node" and args:
+            nodes.extend(_expand_literal_gens(args[0], gens))
+        elif name == "add_nodes_from" and args:
+            nodes.extend(_collection_parts(args[0], gens, sa))
+        elif name == "add_edge" and len(args) >= 2:
+            for pl, g in _expand_literal_gens(("tuplelit", (args[0], args[1])), gens):
+                edges.append((pl, g))
+        elif name == "add_edges_from" and args:
+            edges.extend(_collection_parts(args[0], gens, sa))
+    return t, nodes, edges
